@@ -71,7 +71,7 @@ func vC35Names(ns []vC35Name) (string, []any) {
 	var d []any
 	s := cqListOf(ns, func(n vC35Name) string {
 		d = append(d, map[string]any{"name": n.name, "publish": n.publish})
-		return cqPair(cqBytes(n.name), cqBool(n.publish))
+		return cqPair(vC35Q(n.name), cqBool(n.publish))
 	})
 	return s, d
 }
@@ -229,6 +229,46 @@ func vC35UUIDAt(p string) []int64 {
 	return r
 }
 
+// vC35Q prints a byte string as a Gallina list, run-length encoding long periodic stretches (rp n unit):
+// coqc parses list literals slowly, and the long generated paths are repetitions.
+func vC35Q(s string) string {
+	if len(s) < 96 {
+		return cqBytes(s)
+	}
+	var parts []string
+	lit := 0
+	i := 0
+	for i < len(s) {
+		best, bestP := 0, 0
+		for p := 1; p <= 3 && i+p <= len(s); p++ {
+			j := i + p
+			for j < len(s) && s[j] == s[j-p] {
+				j++
+			}
+			if reps := (j - i) / p; reps >= 16 && reps*p > best {
+				best, bestP = reps*p, p
+			}
+		}
+		if best > 0 {
+			if lit < i {
+				parts = append(parts, cqBytes(s[lit:i]))
+			}
+			parts = append(parts, "rp "+cqZ(int64(best/bestP))+" "+cqBytes(s[i:i+bestP]))
+			i += best
+			lit = i
+		} else {
+			i++
+		}
+	}
+	if lit < len(s) {
+		parts = append(parts, cqBytes(s[lit:]))
+	}
+	if len(parts) == 1 && !strings.HasPrefix(parts[0], "rp ") {
+		return parts[0]
+	}
+	return "(" + strings.Join(parts, " ++ ") + ")"
+}
+
 func TestVerifC35Webrtc(t *testing.T) {
 	r := vNewRand(vSeed())
 	out := vOpenOut()
@@ -297,7 +337,7 @@ func TestVerifC35Webrtc(t *testing.T) {
 			oc = fmt.Sprintf("%s-%d", m, status)
 		}
 		ua := vC35UUIDAt(p)
-		out.Case(cqApp("CWebrtc", "false", vC35Meth(m), cqBytes(p), cqListOf(ua, cqZ), obs),
+		out.Case(cqApp("CWebrtc", "false", vC35Meth(m), vC35Q(p), cqListOf(ua, cqZ), obs),
 			map[string]any{"front": "webrtc", "mode": "direct", "method": m, "path": p, "status": status, "panic": panicked,
 				"pm_calls": nd, "uuid_at": ua}, "webrtc-direct/"+class+"/"+oc, len(names) > 0 || status == 404 && m == "DELETE")
 	}
@@ -334,7 +374,7 @@ func TestVerifC35Webrtc(t *testing.T) {
 		}
 		desc["path"] = u.Path
 		ua := vC35UUIDAt(u.Path)
-		out.Case(cqApp("CWebrtc", "true", vC35Meth(m), cqBytes(u.Path), cqListOf(ua, cqZ), cqApp("ORes", cqZ(int64(status)), ns, "0")),
+		out.Case(cqApp("CWebrtc", "true", vC35Meth(m), vC35Q(u.Path), cqListOf(ua, cqZ), cqApp("ORes", cqZ(int64(status)), ns, "0")),
 			desc, fmt.Sprintf("webrtc-wire/%s/%s-%d", class, m, status), len(names) > 0)
 	}
 }
